@@ -88,6 +88,203 @@ FIX_CODES = ("unused_variable", "unused_assignment", "use_fstrings", "missing_f"
 
 
 # ------------------------------------------------------------------ constants regenerated from the live source
+# ------------------------------------------------------------------ fix routes: every producer call, its guards, its callers
+ROUTE_FILES = ["name_check_visitor.py", "node_visitor.py", "format_strings.py", "implementation.py", "signature.py",
+               "asynq_checker.py", "yield_checker.py"]
+PRODUCER_CALLS = ("replace_node", "remove_node", "Replacement")
+
+
+def implied_isinstance(test, pol=True):
+    """{(expression text, ast class)} that a condition (pol=True) or its negation (pol=False) implies through isinstance."""
+    out = set()
+    if isinstance(test, ast.BoolOp):
+        if (isinstance(test.op, ast.And) and pol) or (isinstance(test.op, ast.Or) and not pol):
+            for v in test.values:
+                out |= implied_isinstance(v, pol)
+    elif isinstance(test, ast.UnaryOp) and isinstance(test.op, ast.Not):
+        out |= implied_isinstance(test.operand, not pol)
+    elif pol and isinstance(test, ast.Call) and isinstance(test.func, ast.Name) and test.func.id == "isinstance" and len(test.args) == 2:
+        ks = test.args[1].elts if isinstance(test.args[1], ast.Tuple) else [test.args[1]]
+        names = [k.attr for k in ks if isinstance(k, ast.Attribute) and isinstance(k.value, ast.Name) and k.value.id == "ast"]
+        if len(names) == len(ks) == 1:
+            out.add((ast.unparse(test.args[0]), names[0]))
+    return out
+
+
+def ast_category(cls):
+    c = getattr(ast, cls, None)
+    if c is None or not isinstance(c, type):
+        return "other"
+    return "expr" if issubclass(c, ast.expr) else "stmt" if issubclass(c, ast.stmt) else "other"
+
+
+def _kind_text(kinds):
+    kinds = {k for k in kinds if k != "AST"} or set(kinds)
+    if not kinds:
+        return "unknown"
+    return "%s:%s" % ("/".join(sorted({ast_category(k) for k in kinds})), ",".join(sorted(kinds)))
+
+
+def scan_fix_routes(repo):
+    """Every call of replace_node / remove_node / Replacement(...) and every store into _changes_for_fixer in the fix
+    producers' files: enclosing function, first argument, the conditions it sits under (enclosing `if`s, negated for
+    `else`, plus negated early exits `if c: continue/return`), the kind of node it rewrites and of the replacement
+    (from isinstance guards, parameter annotations, visit_<Cls>, `ast.<Cls>(…)` constructors), and its callers."""
+    funcs = {}
+    for fn in ROUTE_FILES:
+        tree = ast.parse(open(os.path.join(repo, "pyanalyze", fn)).read())
+
+        def walk(node, qual):
+            for ch in ast.iter_child_nodes(node):
+                if isinstance(ch, (ast.FunctionDef, ast.AsyncFunctionDef)):
+                    funcs.setdefault(ch.name, []).append((fn, ".".join(qual + [ch.name]), ch))
+                    walk(ch, qual + [ch.name])
+                elif isinstance(ch, ast.ClassDef):
+                    walk(ch, qual + [ch.name])
+                else:
+                    walk(ch, qual)
+        walk(tree, [])
+    producers = []
+
+    def header_calls(st):
+        if isinstance(st, (ast.FunctionDef, ast.AsyncFunctionDef, ast.ClassDef)):
+            return []
+        roots = []
+        for f, v in ast.iter_fields(st):
+            if f not in ("body", "orelse", "finalbody", "handlers"):
+                roots += v if isinstance(v, list) else [v]
+        out = []
+        for r in roots:
+            if isinstance(r, ast.AST):
+                for n in ast.walk(r):
+                    if isinstance(n, ast.Call):
+                        nm = n.func.attr if isinstance(n.func, ast.Attribute) else n.func.id if isinstance(n.func, ast.Name) else None
+                        if nm in PRODUCER_CALLS:
+                            out.append((nm, n))
+                    if isinstance(n, ast.Subscript) and isinstance(n.value, ast.Attribute) and n.value.attr == "_changes_for_fixer":
+                        out.append(("_changes_for_fixer", n))
+        return out
+
+    for name, lst in sorted(funcs.items()):
+        for fn, qual, fnode in lst:
+            assigns = {}
+            for n in ast.walk(fnode):
+                if isinstance(n, ast.Assign) and len(n.targets) == 1 and isinstance(n.targets[0], ast.Name):
+                    assigns.setdefault(n.targets[0].id, []).append(n.value)
+
+            def expr_kind(e):
+                if isinstance(e, ast.Call) and isinstance(e.func, ast.Attribute) and isinstance(e.func.value, ast.Name) and e.func.value.id == "ast":
+                    return {e.func.attr}
+                if isinstance(e, ast.Name) and e.id in assigns:
+                    ks = set()
+                    for v in assigns[e.id]:
+                        k = expr_kind(v) if not isinstance(v, ast.Name) else set()
+                        if not k:
+                            return set()
+                        ks |= k
+                    return ks
+                return set()
+
+            def emit(nm, n, guards):
+                target = ast.unparse(n.args[0]) if isinstance(n, ast.Call) and n.args else "-"
+                kinds = set()
+                for pol, t in guards:
+                    kinds |= {c for (e, c) in implied_isinstance(t, pol == "if") if e == target}
+                if not kinds:
+                    for a in fnode.args.args + fnode.args.kwonlyargs:
+                        if a.arg == target and a.annotation is not None and ast.unparse(a.annotation).startswith("ast."):
+                            kinds.add(ast.unparse(a.annotation)[4:])
+                    if fnode.name.startswith("visit_") and target == "node":
+                        kinds = {fnode.name[6:]}
+                repl = "-"
+                if nm == "replace_node" and isinstance(n, ast.Call) and len(n.args) > 1:
+                    repl = _kind_text(expr_kind(n.args[1]))
+                producers.append({"file": fn, "func": qual, "call": nm, "target": target, "kinds": kinds, "replKind": repl,
+                                  "guards": [("" if pol == "if" else "not ") + "(" + ast.unparse(t) + ")" for pol, t in guards],
+                                  "fname": fnode.name, "argpos": 0})
+
+            def visit(stmts, guards):
+                early = []
+                for st in stmts:
+                    g = guards + early
+                    for nm, n in header_calls(st):
+                        emit(nm, n, g)
+                    if isinstance(st, ast.If):
+                        visit(st.body, g + [("if", st.test)])
+                        visit(st.orelse, g + [("not", st.test)])
+                        if st.body and isinstance(st.body[-1], (ast.Continue, ast.Return, ast.Raise)) and not st.orelse:
+                            early.append(("not", st.test))
+                    elif isinstance(st, (ast.For, ast.AsyncFor, ast.While)):
+                        visit(st.body, g)
+                        visit(st.orelse, g)
+                    elif isinstance(st, (ast.With, ast.AsyncWith)):
+                        visit(st.body, g)
+                    elif isinstance(st, ast.Try):
+                        visit(st.body, g)
+                        for h in st.handlers:
+                            visit(h.body, g)
+                        visit(st.orelse, g)
+                        visit(st.finalbody, g)
+            visit(fnode.body, [])
+    rows = []
+    for p in producers:
+        callers = []
+        if p["fname"] != "show_error":
+            params = None
+            for fn, qual, fnode in funcs.get(p["fname"], []):
+                if qual == p["func"]:
+                    params = [a.arg for a in fnode.args.args if a.arg not in ("self", "cls")]
+            for name, lst in funcs.items():
+                for fn, qual, fnode in lst:
+                    if qual == p["func"]:
+                        continue
+                    for n in ast.walk(fnode):
+                        if isinstance(n, ast.Call):
+                            nm = n.func.attr if isinstance(n.func, ast.Attribute) else n.func.id if isinstance(n.func, ast.Name) else None
+                            if nm == p["fname"]:
+                                callers.append("%s:%s(%s)" % (fn, qual, ", ".join(ast.unparse(a) for a in n.args[:3])))
+                                # a visit_<Cls> method handing on its own node tells the kind of the target
+                                if params and p["target"] in params and not ({k for k in p["kinds"] if k != "AST"}):
+                                    i = params.index(p["target"])
+                                    if i < len(n.args) and ast.unparse(n.args[i]) == "node" and fnode.name.startswith("visit_"):
+                                        p.setdefault("callerKinds", set()).add(fnode.name[6:])
+                                    else:
+                                        p.setdefault("callerKinds", set()).add("?")
+        ck = p.get("callerKinds", set())
+        kinds = p["kinds"]
+        if not ({k for k in kinds if k != "AST"}) and ck and "?" not in ck:
+            kinds = ck
+        rows.append({"file": p["file"], "func": p["func"], "call": p["call"], "target": p["target"], "targetKind": _kind_text(kinds),
+                     "replKind": p["replKind"], "guards": p["guards"], "callers": sorted(set(callers))})
+    return sorted(rows, key=lambda r: (r["file"], r["func"], r["call"], r["target"], r["guards"]))
+
+
+def _lean_str(x):
+    return json.dumps(x, ensure_ascii=True)
+
+
+def routes_lean_text(rows, namespace, defname, header):
+    def lst(xs):
+        return "[" + ", ".join(_lean_str(x) for x in xs) + "]"
+    body = ",\n".join("  { file := %s, func := %s, call := %s, target := %s, targetKind := %s, replKind := %s,\n    guards := %s,\n    callers := %s }" % (
+        _lean_str(r["file"]), _lean_str(r["func"]), _lean_str(r["call"]), _lean_str(r["target"]), _lean_str(r["targetKind"]),
+        _lean_str(r["replKind"]), lst(r["guards"]), lst(r["callers"])) for r in rows)
+    return "%snamespace %s\n\ndef %s : List Pya.C16.Route := [\n%s\n]\n\n" % (header, namespace, defname, body)
+
+
+def translate_routes(ctx):
+    rows = scan_fix_routes(pya.REPO)
+    exprs = sorted(c.__name__ for c in vars(ast).values() if isinstance(c, type) and issubclass(c, ast.expr) and c is not ast.expr)
+    stmts = sorted(c.__name__ for c in vars(ast).values() if isinstance(c, type) and issubclass(c, ast.stmt) and c is not ast.stmt)
+    text = routes_lean_text(rows, "Pya.C16.Gen", "fixRoutes",
+                            "import PyaModel.Core.NodeCopy\n/-! Regenerated by harness/props/c16.py `translate` from the live pyanalyze (AST scan of the fix producers); do not edit. -/\n")
+    text += "/-- the subclasses of `ast.expr` / `ast.stmt` of the running CPython -/\n"
+    text += "def exprKinds : List String := [%s]\n\ndef stmtKinds : List String := [%s]\n\nend Pya.C16.Gen\n" % (
+        ", ".join(_lean_str(x) for x in exprs), ", ".join(_lean_str(x) for x in stmts))
+    lean.write_if_changed(os.path.join(lean.LEAN, "PyaModel", "Generated", "FixRoutes.lean"), text)
+    return rows
+
+
 def _guard_to_lean(e):
     """The Python subset the removal guard of `_check_function_unused_vars` is written in -> a Lean Bool term over
     `s : AssignStmt`, `u : String` (Core/Binding.lean). Anything else: ValueError (the tie is broken, never skipped)."""
@@ -168,6 +365,7 @@ def translate(ctx):
     ) % (int(node_visitor.ITERATION_LIMIT), '"' + node_visitor.IGNORE_COMMENT.replace("\\", "\\\\").replace('"', '\\"') + '"',
          ast.unparse(guard).replace("`", "'"), _guard_to_lean(guard))
     lean.write_if_changed(os.path.join(lean.LEAN, "PyaModel", "Generated", "FixConsts.lean"), text)
+    translate_routes(ctx)
 
 
 # ------------------------------------------------------------------ running the real thing
@@ -186,10 +384,15 @@ def _classes():
         """NameCheckVisitor that remembers which statement each proposed Replacement rewrites."""
 
         _stmts = None
+        _routes = None
 
         def replace_node(self, current_node, new_node, current_statement=None):
             r = super().replace_node(current_node, new_node, current_statement)
             st = current_statement if current_statement is not None else self.current_statement
+            if self._stmts is not None:
+                f1, f2 = sys._getframe(1), sys._getframe(2)
+                self._routes.append(("replace_node", f1.f_code.co_name, f2.f_code.co_name, type(current_node).__name__,
+                                     type(new_node).__name__, r is not None))
             if r is not None and self._stmts is not None and st is not None:
                 self._stmts[id(r)] = ("replace", st, r, current_node, new_node)
             return r
@@ -197,6 +400,9 @@ def _classes():
         def remove_node(self, current_node, current_statement=None):
             r = super().remove_node(current_node, current_statement)
             st = current_statement if current_statement is not None else self.current_statement
+            if self._stmts is not None:
+                f1, f2 = sys._getframe(1), sys._getframe(2)
+                self._routes.append(("remove_node", f1.f_code.co_name, f2.f_code.co_name, type(current_node).__name__, "-", r is not None))
             if r is not None and self._stmts is not None and st is not None:
                 self._stmts[id(r)] = ("remove", st, r, None, None)
             return r
@@ -222,6 +428,10 @@ def get_kwargs(profile):
     return _KW[profile]
 
 
+LAST_ROUTES = []
+ROUTES_SEEN = {}
+
+
 def real_round(ctx, src, add_ignores, profile):
     """One `_run_and_apply_changes(autofix=True)`-equivalent round on `src`.
     Returns (fails [(code, line, col, msg)], changes [(dels, adds|None)], info of changes[0] or None, new source)."""
@@ -239,6 +449,7 @@ def real_round(ctx, src, add_ignores, profile):
             with qcore.override(Rec, "_changes_for_fixer", changes):
                 v = Rec(mod.__name__, src, tree, module=mod, add_ignores=add_ignores, **kwargs)
                 v._stmts = {}
+                v._routes = []
                 res = v.check()
     finally:
         for k in [k for k, m in sys.modules.items() if m is mod]:
@@ -247,6 +458,10 @@ def real_round(ctx, src, add_ignores, profile):
               pya.norm(f.get("description", "")).split("\n")[0].replace(name, "<mod>")) for f in res]
     chs = changes.get(mod.__name__, [])
     out = [(list(c.linenos_to_delete), None if c.lines_to_add is None else list(c.lines_to_add)) for c in chs]
+    # every producer call of this run: (call, function, its caller, kind of the rewritten node, of the replacement, produced)
+    LAST_ROUTES[:] = v._routes
+    for (call, f1, f2, tk, rk, ok) in v._routes:
+        ROUTES_SEEN[(call, f1, f2)] = ROUTES_SEEN.get((call, f1, f2), 0) + 1
     info = None
     if chs and id(chs[0]) in v._stmts:
         kind, st, _, cur_node, new_node = v._stmts[id(chs[0])]
@@ -256,6 +471,8 @@ def real_round(ctx, src, add_ignores, profile):
             info["target"] = (type(cur_node).__name__, cur_node.lineno, cur_node.col_offset,
                               getattr(cur_node, "end_lineno", None), getattr(cur_node, "end_col_offset", None))
             info["new_node"] = new_node
+            info["target_in_joinedstr"] = any(isinstance(p_, ast.JoinedStr) and any(x is cur_node for x in p_.values)
+                                              for p_ in ast.walk(st))
     # the real file route: readlines -> _apply_changes_to_lines -> write
     path = os.path.join(ctx.scratch, "c16_apply.py")
     with open(path, "w", newline="") as f:
@@ -419,7 +636,13 @@ def stmt_facts(src, tree, st):
                     last = m
                 if last is not None and t[last.end():] != "\n":
                     tail = True
-    return shares, sole, is_elif, risky, decorated, has_walrus, tail
+    zero = False
+    for n in ast.walk(st):
+        if isinstance(n, ast.BinOp) and isinstance(n.op, ast.Mod) and isinstance(n.left, ast.Constant) and isinstance(n.left.value, str):
+            import re as _re
+            if _re.search(r"%[#\- +]*(0[diouxXeEfFgGcrsba]|\d*\.0?[diouxXeEfFgGcrsba])", n.left.value):
+                zero = True
+    return shares, sole, is_elif, risky, decorated, has_walrus, tail, zero
 
 
 def dump_without(tree, st, placeholder):
@@ -1514,6 +1737,62 @@ BIND_FORMS = [
 ]
 
 
+# every route into the producers: the operator / statement forms of each caller in the regenerated registry
+ROUTE_FORMS = [
+    ("aug-mod-known", ["fmt = \"%s items\"", "fmt %= a", "return fmt"]),            # visit_AugAssign -> _visit_binop_internal: no fix
+    ("aug-mod-tuple", ["fmt = \"%s and %s\"", "fmt %= (a, b)", "return fmt"]),
+    ("aug-mod-d", ["fmt = \"%d!\"", "fmt %= a", "return fmt"]),
+    ("aug-mod-int", ["n = a + 10", "n %= 3", "return n"]),
+    ("aug-mod-in-loop", ["fmt = \"%s;\"", "for i in range(1):", "    fmt %= i", "return fmt"]),
+    ("aug-mod-attr", ["bx = Box(\"%s!\")", "bx.v %= a", "return bx.v"]),
+    ("aug-add-fstr", ["s = \"p\"", "s += \"%s!\" % b", "return s"]),             # visit_BinOp inside an AugAssign value
+    ("aug-add-tmpa", ["t = ()", "t += big(a, b, c, 4, 5, 6, 7, 8, 9, 10, 11)", "return t"]),
+    ("aug-add-missing-f", ["s = \"p\"", "s += \"hello {a}\"", "return s"]),
+    ("aug-add-comp", ["r = []", "r += [1 for x in range(2)]", "return r"]),
+    ("compare-of-binop", ["return (\"%s\" % a) == b"]),                          # _visit_single_compare
+    ("binop-mod-of-binop", ["return (\"%s\" + \"!\") % a"]),
+    ("binop-nested", ["return \"%s\" % (\"%s\" % a)"]),
+    ("missing-f-in-fstring", ["x = a", "y = b", "s = f\"{x} {{y}}\"", "return s"]),   # visit_Constant on a piece of a JoinedStr
+    ("missing-f-in-call", ["return coll(\"{a} and {b}\")"]),
+    ("missing-f-in-dict", ["return {\"k\": \"{a}\"}"]),
+    ("pct-zero-precision", ["return \"%.0s|\" % b"]),
+    ("pct-zero-width", ["return \"%0s|\" % b"]),
+    ("pct-star-width", ["return \"%*s|\" % (3, b)"]),
+    ("comp-in-genexp", ["return sum(1 for x in range(a))"]),                      # _visit_sequence_comp routes
+    ("comp-in-setcomp", ["return len({1 for x in range(2)})"]),
+    ("comp-in-dictcomp", ["return {1: 2 for x in range(2)}"]),
+]
+MODULE_ROUTE_FORMS = [
+    ("module-aug-mod", ["FMT = \"%s items\"", "FMT %= 3"]),
+    ("module-binop", ["MSG = \"%s!\" % __name__"]),
+    ("class-aug-mod", ["class Cfg:", "    fmt = \"%s;\"", "    fmt %= 1"]),
+]
+
+
+def route_programs(ctx):
+    progs = [("route:" + n, build_ctx_program(b), "fix") for n, b in ROUTE_FORMS]
+    for n, b in MODULE_ROUTE_FORMS:
+        progs.append(("route:" + n, list(CTX_PRELUDE) + b + ["def t0(a, b, c):", "    return a"], "fix"))
+    return progs
+
+
+def route_coverage(ctx, rows):
+    """Registered replace_node / remove_node routes (producer function <- its callers) vs the call chains observed."""
+    reg = []
+    for r in rows:
+        if r["call"] in ("replace_node", "remove_node"):
+            fn = r["func"].split(".")[-1]
+            callers = sorted({c.split(":", 1)[1].split("(")[0].split(".")[-1] for c in r["callers"]}) or ["-"]
+            for c in callers:
+                reg.append((r["call"], fn, c))
+    seen = {(c, f1, f2) for (c, f1, f2) in ROUTES_SEEN}
+    ctx.extra["fix_route_coverage"] = {
+        "registered_routes": len(set(reg)),
+        "observed": sorted("%s<-%s<-%s x%d" % (k[0], k[1], k[2], v) for k, v in ROUTES_SEEN.items()),
+        "registered_not_observed": sorted("%s<-%s<-%s" % k for k in set(reg) if k not in seen and (k[0], k[1]) not in {(a, b) for (a, b, _c) in seen}),
+    }
+
+
 def bind_programs(ctx):
     rng = ctx.rng
     progs = []
@@ -1550,7 +1829,9 @@ def exact_replacement_dump(old_tree, info):
              and getattr(n, "end_col_offset", None) == tt[4]]
     if len(cands) != 1:
         return None
-    return ast.dump(subst_ast(old_tree, cands[0], normalise_new_node(info["new_node"], cands[0])))
+    exp = subst_ast(old_tree, cands[0], normalise_new_node(info["new_node"], cands[0]))
+    info["expected_src"] = ast.unparse(ast.fix_missing_locations(exp))
+    return ast.dump(exp)
 
 
 def fix_case(ctx, case, lines, with_model, cap, profile="fix"):
@@ -1566,6 +1847,10 @@ def fix_case(ctx, case, lines, with_model, cap, profile="fix"):
                 ctx.notes.append("fix program rejected (%s: %s): %r" % (type(e).__name__, e, lines[:8]))
             return pending
         ctx.count(1, fixes=1)
+        for (call, f1, f2, tk, rk, ok) in LAST_ROUTES:
+            if call == "replace_node" and ast_category(tk) != ast_category(rk):
+                pending.append(("P", case, k, None, [("kind", "round %d: %s (called from %s) hands replace_node a %s (%s) with a %s (%s) replacement" % (
+                    k, f1, f2, tk, ast_category(tk), rk, ast_category(rk)))], None))
         cl = file_lines(cur)
         first = changes[0] if changes else None
         if k == 0:
@@ -1586,7 +1871,7 @@ def fix_case(ctx, case, lines, with_model, cap, profile="fix"):
         old_tree = ast.parse(cur)
         new_tree = try_parse(new)
         st = find_stmt(old_tree, info) if info else None
-        facts = stmt_facts(cur, old_tree, st) if st is not None else (False,) * 7
+        facts = stmt_facts(cur, old_tree, st) if st is not None else (False,) * 8
         if info is None or st is None:
             ctx.tag("fix_without_statement_record")
         if new_tree is None:
@@ -1627,7 +1912,10 @@ def fix_case(ctx, case, lines, with_model, cap, profile="fix"):
                             k, un.id, st.lineno, rd[0][0], rd[0][1])))
             # behaviour
             b0, b1 = behaviour(cur), behaviour(new)
-            if code == "missing_f":
+            if code == "missing_f" and info.get("expected_src"):
+                # the intended change alters the value: compare with the original tree with exactly that node replaced
+                b0 = behaviour(info["expected_src"])
+            elif code == "missing_f":
                 # the intended change: the literal is now formatted with the local names
                 def fmt(v, args):
                     try:
@@ -1659,10 +1947,11 @@ def fix_case(ctx, case, lines, with_model, cap, profile="fix"):
                     problems.append(("newdiag", "round %d: after the fix for %s a diagnostic appears that was not there before: %s on line %s (%s)" % (
                         k, code, fresh[0][0], fresh[0][1], fresh[0][3][:60])))
         if info is not None:
-            pending.append(("X", case, k, "X|%s|%d|%d|%s|%d%d%d%d%d%d%d" % (
+            pending.append(("X", case, k, "X|%s|%d|%d|%s|%d%d%d%d%d%d%d%d%d" % (
                 enc_lines(cl), info["lineno"], info["end_lineno"], enc_adds(None if first[1] is None else strip_nl(first[1])),
                 int(facts[0]), int(facts[1]), int(facts[2]), int(facts[3] and code == "use_fstrings"), int(facts[4]),
-                int(facts[5]), int(facts[6] and code == "use_fstrings")), problems, first[0]))
+                int(facts[5]), int(facts[6] and code == "use_fstrings"), int(facts[7] and code == "use_fstrings"),
+                int(bool(info.get("target_in_joinedstr")))), problems, first[0]))
             pending.append(("R", case, k, "R|%s|%d|%d|%d" % (enc_lines(cl), info["lineno"], info["end_lineno"], info["end_lineno"]),
                             first[0], None))
         elif problems:
@@ -1674,11 +1963,12 @@ def fix_case(ctx, case, lines, with_model, cap, profile="fix"):
 
 
 FIX_KIND_CLASSES = {
-    "parse": ["emptyBlock", "stmtRangeOverrun", "sharedLine"],
+    "parse": ["emptyBlock", "stmtRangeOverrun", "sharedLine", "missingFInFstring"],
     "locality": ["stmtRangeOverrun", "sharedLine", "elifHeader", "emptyBlock", "decoratedStmt"],
-    "behaviour": ["stmtRangeOverrun", "sharedLine", "elifHeader", "decoratedStmt", "fstringConversion"],
+    "behaviour": ["stmtRangeOverrun", "sharedLine", "elifHeader", "decoratedStmt", "fstringZeroPrecision", "fstringConversion"],
     "still": ["decoratedStmt"],
     "exact": ["stmtRangeOverrun", "sharedLine", "elifHeader", "decoratedStmt"],
+    "kind": [],           # an expression for a statement (or the reverse): never a known class
     "binding": [],        # was walrusInRemoved, repaired by 21e29d0: a removed statement that binds something else is new
     "newdiag": ["sharedLine", "elifHeader", "stmtRangeOverrun", "decoratedStmt"],
 }
@@ -1735,7 +2025,7 @@ def flush_fixes(ctx, pending, with_model):
                 allowed = FIX_KIND_CLASSES[kind]
                 if kind == "behaviour" and any(k2 in ("exact", "locality", "parse") for k2, _w in p[4]):
                     # fstringConversion explains a changed result only when the tree is exactly the intended one
-                    allowed = [c for c in allowed if c != "fstringConversion"]
+                    allowed = [c for c in allowed if c not in ("fstringConversion", "fstringZeroPrecision")]
                 cls = next((c for c in allowed if c in cls_list), None)
                 ctx.candidate(dict(case, round=k), what, cls=cls, conforms=conform.get(key, True), stream="fixes")
         elif op == "X" and mo is not None:
@@ -1982,6 +2272,16 @@ def _run(ctx, with_model):
             pending = []
     flush_fixes(ctx, pending, with_model)
     binding_coverage(ctx, [l for _t, l, _p in bprogs] + [l for _t, l, _p in cprogs])
+    # ---- every registered route into the fix producers
+    pending = []
+    for tag, lines, prof in route_programs(ctx):
+        ctx.tag("gen_route")
+        pending += fix_case(ctx, {"program": lines, "mode": "fixes", "profile": prof}, lines, with_model, ctx.n(2, 4), profile=prof)
+    flush_fixes(ctx, pending, with_model)
+    try:
+        route_coverage(ctx, scan_fix_routes(pya.REPO))
+    except Exception as e:
+        ctx.obligation_broken("fix-route-scan", "the fix producers could not be scanned: %r" % (e,))
     srcs = ["\n".join(l) + "\n" for _t, l, _p in cprogs]
     extra = ["\n".join(l) + "\n" for _t, l in fprogs] + ["\n".join(l) + "\n" for _t, l, _n in progs]
     ctx.rng.shuffle(extra)
